@@ -185,7 +185,7 @@ def equation_case(draw):
     else:
         lookup = draw(st.dictionaries(st.sampled_from(pool), st.sampled_from(FRESH + pool), min_size=1, max_size=4))
     vals = {n: draw(st.integers(1, 40)) / 4.0 for n in pool}
-    return {'lead': lead, 'terms': terms, 'lookup': lookup, 'vals': vals, 'via': draw(st.sampled_from(['equation', 'block']))}
+    return {'lead': lead, 'terms': terms, 'lookup': lookup, 'vals': vals, 'via': draw(st.sampled_from(['equation', 'block', 'block-shared']))}
 
 
 def run_equation(spec):
@@ -201,6 +201,37 @@ def run_equation(spec):
             eq.AddTerm(t)
     except (LogicError, SyntaxError, NotImplementedError):
         raise Reject('term refused')
+    if spec['via'] == 'block-shared':
+        # the same Term OBJECTS are handed to two equations of one block (a ratio used in two places): every equation is
+        # renamed exactly once, whoever else holds the objects
+        try:
+            objs = [Term(t) for t in spec['terms']]
+            eq = Equation('v', 'd', [])
+            twin = Equation('w', 'd', [])
+            for o in objs:
+                eq.AddTerm(o)
+            for o in objs:
+                twin.AddTerm(o)
+        except (LogicError, SyntaxError, NotImplementedError):
+            raise Reject('term refused')
+        before, before2 = eq.RHS(), twin.RHS()
+        blk = EquationBlock()
+        blk.AddEquation(eq)
+        blk.AddEquation(twin)
+        blk.ReplaceTokensFromLookup(lookup)
+        for b_, a_ in ((before2, twin.RHS()),):
+            want2 = [lookup.get(n, n) for n in expr.names(b_)]
+            if expr.names(a_) != want2:
+                raise Violation('C13/equation-level-rename', 'second equation %r (sharing Term objects with the first) under %r '
+                                                             'became %r: expected names %r' % (b_, lookup, a_, want2))
+        after = eq.RHS()
+        names_before = expr.names(before)
+        want_names = [lookup.get(n, n) for n in names_before]
+        if expr.names(after) != want_names:
+            raise Violation('C13/equation-level-rename', 'equation %r (sharing Term objects with another) under %r became %r: '
+                                                         'expected names %r' % (before, lookup, after, want_names))
+        changed = len(set(n for n in names_before if lookup.get(n, n) != n))
+        return {'nontrivial': changed >= 2, 'labels': ['via:block-shared']}
     before = eq.RHS()
     if spec['via'] == 'block':
         blk = EquationBlock()
